@@ -42,6 +42,10 @@ def execute(c):
         if op == "split":
             w, f = M.split_float(c["n"] / 16)
             ev["o"] = {"w": _lat(w), "f": _lat(f, 16)}
+        elif op == "maybezero":
+            ev["o"] = {"v": _lat(M.maybe_zero(c["n"] / 1024, c["tol"][0] / c["tol"][1]), 1024)}
+        elif op == "clamp":
+            ev["o"] = {"v": int(M.clamp(c["n"], c["lo"], c["hi"]))}
         elif op == "nearint":
             x = c["n"] / 1024
             tol = c["tol"][0] / c["tol"][1]
